@@ -86,18 +86,18 @@ type cgEv struct {
 }
 
 type cgResult struct {
-	sc       *cgScenario
-	newErr   error
-	events   []cgEv
-	group    []sarama.VSimGroupEvent
-	fetched  []sarama.VSimFetched
-	hooks    []hookEv
-	stuck    bool
-	stuckWho []string
-	inconcl  string
-	logEnd   int64
+	sc         *cgScenario
+	newErr     error
+	events     []cgEv
+	group      []sarama.VSimGroupEvent
+	fetched    []sarama.VSimFetched
+	hooks      []hookEv
+	stuck      bool
+	stuckWho   []string
+	inconcl    string
+	logEnd     int64
 	faultsUsed map[string]int
-	stored   map[string]int64
+	stored     map[string]int64
 }
 
 type offMap struct {
@@ -127,19 +127,19 @@ func (o *offMap) snapshot() map[string]int64 {
 }
 
 type cgHandler struct {
-	lastSeen sync.Map // session key -> *offMap
-	res    *cgResult
-	mu     *sync.Mutex
-	member int
-	spec   cgMember
-	call   *int32
-	cancel *atomic.Value // func()
-	total  *int64        // group-wide deliveries
-	mine   *int64
-	logEnd int64
-	setupErrDone *int32
+	lastSeen      sync.Map // session key -> *offMap
+	res           *cgResult
+	mu            *sync.Mutex
+	member        int
+	spec          cgMember
+	call          *int32
+	cancel        *atomic.Value // func()
+	total         *int64        // group-wide deliveries
+	mine          *int64
+	logEnd        int64
+	setupErrDone  *int32
 	sessDelivered *sync.Map // per session: partitions fully read
-	closeGroup func()
+	closeGroup    func()
 }
 
 func (h *cgHandler) log(ev cgEv) {
@@ -564,18 +564,18 @@ func runGroup(sc *cgScenario, rng *rand.Rand) *cgResult {
 }
 
 type cgSession struct {
-	member   int
-	call     int
-	memberID string
-	gen      int32
+	member                                           int
+	call                                             int
+	memberID                                         string
+	gen                                              int32
 	setup, setupRet, cleanup, cleanupRet, consumeRet int64
-	setupErr bool
-	claims   map[string][]int32
-	starts   map[string]*cgEv
-	rets     map[string]int64
-	msgs     map[string][]int64
-	marks    map[string]int64
-	consumeErr string
+	setupErr                                         bool
+	claims                                           map[string][]int32
+	starts                                           map[string]*cgEv
+	rets                                             map[string]int64
+	msgs                                             map[string][]int64
+	marks                                            map[string]int64
+	consumeErr                                       string
 }
 
 func judgeGroup(res *cgResult) proto.Rec {
